@@ -769,10 +769,10 @@ def sepify(S, strict=False):
             empty2 = b2 == ("seq", []) or (b2[0] == "seq" and not b2[1])
             sepb, g = (b1, g1) if empty2 and not empty1 else ((b2, g2) if empty1 and not empty2 else (None, None))
             if sepb is not None and all(a[0] == "lit" for a in T.atoms(sepb)) and (SEP_GUARD_STRICT if strict else SEP_GUARD).search((g.get("text") or "").strip()):
-                return ("sepby", sepify(("seq", items[1:]), strict), sepb)
+                return ("sepby", sepify(("seq", items[1:]), strict), sepb, S[2] if len(S) > 2 and isinstance(S[2], dict) else None)
         return (k, sepify(body, strict)) + tuple(S[2:])
     if k == "sepby":
-        return ("sepby", sepify(S[1], strict), sepify(S[2], strict))
+        return ("sepby", sepify(S[1], strict), sepify(S[2], strict)) + tuple(S[3:])
     if k == "sepchain":
         return ("sepchain", [(sepify(b, strict), sp) for b, sp in S[1]])
     return S
